@@ -6,7 +6,7 @@ import (
 )
 
 // RegoStringContent escapes s so that it can be pasted between double quotes in generated Rego code and denote
-// exactly s: backslash, double quote and control characters are escaped, everything else is kept as it is.
+// exactly s: backslash, double quote, control characters and the byte order mark are escaped, everything else is kept as it is.
 func RegoStringContent(s string) string {
 	var b strings.Builder
 	for _, r := range s {
@@ -22,7 +22,7 @@ func RegoStringContent(s string) string {
 		case '\r':
 			b.WriteString(`\r`)
 		default:
-			if r < 0x20 {
+			if r < 0x20 || r == 0xFEFF { // the Rego scanner rejects a byte order mark anywhere but at the start of a module
 				b.WriteString(fmt.Sprintf(`\u%04x`, r))
 			} else {
 				b.WriteRune(r)
